@@ -37,6 +37,8 @@ type deliverObs struct {
 	Overlap bool    `json:"overlap"` // two Receive calls of the actor were in progress at once
 	// spawnrace: Spawn returned before Started had been handled
 	SpawnEarly bool `json:"spawn_early"`
+	// childrenrace: nil entries seen in Context.Children(), dead letters for a nil target
+	Anomalies int `json:"anomalies"`
 }
 
 type dmsg struct{ From, Seq int }
@@ -111,10 +113,72 @@ func runSpawnRace(c deliverCase) (any, error) {
 	return obs, nil
 }
 
+// runChildrenRace: a parent keeps listing Context.Children() while its children are stopped one by one
+// by somebody else; every listing must consist of live children only (no nil entries), and stopping
+// the parent afterwards must not address a nil PID.
+func runChildrenRace(c deliverCase) (any, error) {
+	e, err := actor.NewEngine(actor.NewEngineConfig())
+	if err != nil {
+		return nil, err
+	}
+	var nils, nilDead atomic.Int64
+	mon := e.SpawnFunc(func(ctx *actor.Context) {
+		if dl, ok := ctx.Message().(actor.DeadLetterEvent); ok && dl.Target == nil {
+			nilDead.Add(1)
+		}
+	}, "mon", actor.WithID("m"))
+	e.Subscribe(mon)
+	obs := deliverObs{Got: [][]int{}}
+	for round := 0; round < c.Total && nils.Load() == 0; round++ {
+		kids := make(chan []*actor.PID, 1)
+		parent := e.SpawnFunc(func(ctx *actor.Context) {
+			switch ctx.Message().(type) {
+			case actor.Started:
+				var ks []*actor.PID
+				for i := 0; i < c.PerSender; i++ {
+					ks = append(ks, ctx.SpawnChildFunc(func(*actor.Context) {}, "k"))
+				}
+				kids <- ks
+			case dmsg:
+				for _, p := range ctx.Children() {
+					if p == nil {
+						nils.Add(1)
+					}
+				}
+			}
+		}, "parent")
+		ks := <-kids
+		done := make(chan struct{})
+		go func() {
+			for i, k := range ks {
+				if i%2 == 0 { // half of them: the rest is stopped with the parent
+					e.Poison(k)
+				}
+			}
+			close(done)
+		}()
+		for i := 0; i < 40*c.PerSender; i++ {
+			e.Send(parent, dmsg{0, i})
+		}
+		<-done
+		select {
+		case <-e.Poison(parent).Done():
+		case <-time.After(30 * time.Second):
+			obs.Hang = true
+		}
+	}
+	time.Sleep(5 * time.Millisecond)
+	obs.Anomalies = int(nils.Load() + nilDead.Load())
+	return obs, nil
+}
+
 func runDeliver(raw json.RawMessage) (any, error) {
 	var c deliverCase
 	if err := json.Unmarshal(raw, &c); err != nil {
 		return nil, err
+	}
+	if c.Mode == "childrenrace" {
+		return runChildrenRace(c)
 	}
 	if c.Mode == "spawnrace" {
 		return runSpawnRace(c)
